@@ -180,6 +180,8 @@ class Tables:
                 return self.apply_closure(env[name], args, e)
             if name in ("Vec::new", "Vec::with_capacity", "std::vec::Vec::new", "std::vec::Vec::with_capacity", "vec::Vec::new", "vec::Vec::with_capacity"):
                 return ("list", [])
+            if name in ("std::iter::once", "iter::once", "core::iter::once", "once") and len(args) == 1:
+                return ("list", [args[0]])
             if short in FRAG_FNS and "::" not in name.replace("fragment::", ""):
                 return self.mk_frag(short, args, e)
             if name in ("Arc::new", "std::sync::Arc::new", "sync::Arc::new"):
@@ -204,6 +206,12 @@ class Tables:
                 return ("list", [self.apply_closure(args[0], [x], e) for x in recv[1]])
             elif m == "chain" and isinstance(recv, tuple) and recv and recv[0] == "list" and len(args) == 1 and isinstance(args[0], tuple) and args[0][0] == "list":
                 return ("list", list(recv[1]) + list(args[0][1]))
+            elif m == "zip" and isinstance(recv, tuple) and recv and recv[0] == "list" and len(args) == 1 and isinstance(args[0], tuple) and args[0][0] == "list":
+                if len(recv[1]) != len(args[0][1]):
+                    raise TableError("zip of lists of different length (line %d)" % e["pos"][0])
+                return ("list", [("tuple", (a_, b_)) for a_, b_ in zip(recv[1], args[0][1])])
+            elif m == "enumerate" and isinstance(recv, tuple) and recv and recv[0] == "list" and not args:
+                return ("list", [("tuple", (Fraction(i_), x_)) for i_, x_ in enumerate(recv[1])])
             elif m == "filter" and isinstance(recv, tuple) and recv and recv[0] == "list":
                 raise TableError("filter over a rule list (line %d)" % e["pos"][0])
             else:
@@ -229,7 +237,9 @@ class Tables:
             env2 = dict(env)
             val = None
             for st in e["stmts"]:
-                if st["k"] == "let":
+                if st["k"] == "const" and st.get("name") and "e" in st:
+                    env2[st["name"]] = self.ev(st["e"], env2)
+                elif st["k"] == "let":
                     if "init" not in st:
                         raise TableError("unsupported let (line %d)" % st["pos"][0])
                     self.bind(st["pat"], self.ev(st["init"], env2), env2, st["pos"][0])
@@ -339,6 +349,9 @@ class Tables:
         env = {}
         table = None
         for st in body["stmts"]:
+            if st["k"] == "const" and st.get("name") and "e" in st:
+                env[st["name"]] = self.ev(st["e"], env)   # `const OFFSETS: [(f32, f32); 4] = [..];` inside the initialiser
+                continue
             if st["k"] != "let":
                 continue
             pat = st["pat"]
